@@ -85,6 +85,33 @@ HllArray<A>* HllArray<A>::copyAs(target_hll_type tgtHllType) const {
 }
 
 template<typename A>
+void HllArray<A>::checkCounts(target_hll_type tgtHllType, uint8_t lgConfigK, uint32_t numAtCurMin, uint32_t auxCount) {
+  const uint32_t configK = 1 << lgConfigK;
+  if (numAtCurMin > configK) {
+    throw std::invalid_argument("Possible corruption: number of slots at the current minimum exceeds k: " + std::to_string(numAtCurMin));
+  }
+  if (auxCount > 0 && tgtHllType != HLL_4) {
+    throw std::invalid_argument("Possible corruption: exception count given for a sketch type that has no exceptions");
+  }
+  if (auxCount > configK) {
+    throw std::invalid_argument("Possible corruption: number of exceptions exceeds k: " + std::to_string(auxCount));
+  }
+}
+
+template<typename A>
+void HllArray<A>::checkAuxTokens(const uint8_t* hll4Array, size_t arrayBytes, uint32_t auxCount) {
+  // every exception token in the 4-bit array must have its value in the exception map
+  uint32_t numTokens = 0;
+  for (size_t i = 0; i < arrayBytes; ++i) {
+    if ((hll4Array[i] & hll_constants::loNibbleMask) == hll_constants::AUX_TOKEN) ++numTokens;
+    if ((hll4Array[i] >> 4) == hll_constants::AUX_TOKEN) ++numTokens;
+  }
+  if (numTokens != auxCount) {
+    throw std::invalid_argument("Possible corruption: number of exception tokens does not match the exception count");
+  }
+}
+
+template<typename A>
 HllArray<A>* HllArray<A>::newHll(const void* bytes, size_t len, const A& allocator) {
   if (len < hll_constants::HLL_BYTE_ARR_START) {
     throw std::out_of_range("Input data length insufficient to hold HLL array");
@@ -111,7 +138,7 @@ HllArray<A>* HllArray<A>::newHll(const void* bytes, size_t len, const A& allocat
   const bool comapctFlag = ((data[hll_constants::FLAGS_BYTE] & hll_constants::COMPACT_FLAG_MASK) ? true : false);
   const bool startFullSizeFlag = ((data[hll_constants::FLAGS_BYTE] & hll_constants::FULL_SIZE_FLAG_MASK) ? true : false);
 
-  const uint8_t lgK = data[hll_constants::LG_K_BYTE];
+  const uint8_t lgK = HllUtil<A>::checkLgK(data[hll_constants::LG_K_BYTE]);
   const uint8_t curMin = data[hll_constants::HLL_CUR_MIN_BYTE];
 
   const uint32_t arrayBytes = hllArrBytes(tgtHllType, lgK);
@@ -127,6 +154,8 @@ HllArray<A>* HllArray<A>::newHll(const void* bytes, size_t len, const A& allocat
   uint32_t numAtCurMin, auxCount;
   std::memcpy(&numAtCurMin, data + hll_constants::CUR_MIN_COUNT_INT, sizeof(int));
   std::memcpy(&auxCount, data + hll_constants::AUX_COUNT_INT, sizeof(int));
+  checkCounts(tgtHllType, lgK, numAtCurMin, auxCount);
+  if (tgtHllType == HLL_4) checkAuxTokens(data + hll_constants::HLL_BYTE_ARR_START, arrayBytes, auxCount);
 
   AuxHashMap<A>* auxHashMap = nullptr;
   typedef std::unique_ptr<AuxHashMap<A>, std::function<void(AuxHashMap<A>*)>> aux_hash_map_ptr;
@@ -181,7 +210,8 @@ HllArray<A>* HllArray<A>::newHll(std::istream& is, const A& allocator) {
   const bool comapctFlag = ((listHeader[hll_constants::FLAGS_BYTE] & hll_constants::COMPACT_FLAG_MASK) ? true : false);
   const bool startFullSizeFlag = ((listHeader[hll_constants::FLAGS_BYTE] & hll_constants::FULL_SIZE_FLAG_MASK) ? true : false);
 
-  const uint8_t lgK = listHeader[hll_constants::LG_K_BYTE];
+  if (!is.good()) throw std::runtime_error("error reading from std::istream");
+  const uint8_t lgK = HllUtil<A>::checkLgK(listHeader[hll_constants::LG_K_BYTE]);
   const uint8_t curMin = listHeader[hll_constants::HLL_CUR_MIN_BYTE];
 
   HllArray* sketch = HllSketchImplFactory<A>::newHll(lgK, tgtHllType, startFullSizeFlag, allocator);
@@ -199,9 +229,13 @@ HllArray<A>* HllArray<A>::newHll(std::istream& is, const A& allocator) {
 
   const auto numAtCurMin = read<uint32_t>(is);
   const auto auxCount = read<uint32_t>(is);
+  if (!is.good()) throw std::runtime_error("error reading from std::istream");
+  checkCounts(tgtHllType, lgK, numAtCurMin, auxCount);
   sketch->putNumAtCurMin(numAtCurMin);
   
   read(is, sketch->hllByteArr_.data(), sketch->getHllByteArrBytes());
+  if (!is.good()) throw std::runtime_error("error reading from std::istream");
+  if (tgtHllType == HLL_4) checkAuxTokens(sketch->hllByteArr_.data(), sketch->getHllByteArrBytes(), auxCount);
   
   if (auxCount > 0) { // necessarily TgtHllType == HLL_4
     uint8_t auxLgIntArrSize = listHeader[4];
@@ -211,6 +245,7 @@ HllArray<A>* HllArray<A>::newHll(std::istream& is, const A& allocator) {
     // an updatable image carries the (zeroed) aux array even if it is unused: consume it
     const uint8_t auxLgIntArrSize = listHeader[hll_constants::LG_ARR_BYTE] != 0
         ? listHeader[hll_constants::LG_ARR_BYTE] : hll_constants::LG_AUX_ARR_INTS[lgK];
+    AuxHashMap<A>::checkLgArrInts(auxLgIntArrSize, lgK);
     is.ignore(static_cast<std::streamsize>(4) << auxLgIntArrSize);
   }
 
